@@ -3,6 +3,7 @@ package main
 import (
 	"bytes"
 	"context"
+	"encoding/hex"
 	"encoding/json"
 	"fmt"
 	"io"
@@ -28,24 +29,27 @@ import (
 // syncScn: an end-to-end transfer with the REAL code on both ends, in one of
 // the four role arrangements (C01, C13, C14, ...).
 type syncScn struct {
-	ID       int             `json:"id"`
-	Family   string          `json:"family"`
-	Universe []string        `json:"universe"`
-	Src      []fstree.Node   `json:"src"`
-	Dst      []fstree.Node   `json:"dst"`
-	Flags    []string        `json:"flags"` // client options, e.g. ["-rt", "--delete", "--exclude=a"]
-	Arr      string          `json:"arr"`   // pull | push | local | lib | libpush
-	Form     string          `json:"form"`  // slash (contents of the tree) | noslash (the tree itself) | sub (pull of module/sub/)
-	Judge    []string        `json:"judge"`
-	Repeat   bool            `json:"repeat"` // run the same transfer a second time (idempotence)
-	CapUp    int             `json:"capup"`  // lib arrangement: transport capacities (0 = unbounded default)
-	CapDown  int             `json:"capdown"`
-	Chunk    int             `json:"chunk"`          // lib: reads return at most this many bytes (0: unlimited)
-	Jitter   int64           `json:"jitter"`         // lib: seed of random yields / micro-sleeps in transport operations (0: none)
-	Flip     int64           `json:"flip"`           // lib: flip one bit of the sender->receiver stream at this offset (0: none)
-	Wire     bool            `json:"wire"`           // lib (pull): record the action-level trace of the session (SessionWire.tla)
-	Full     bool            `json:"full"`           // lib, libpush: record the complete session transcript (RsyncTrace.tla)
-	Echo     json.RawMessage `json:"echo,omitempty"` // passed through (opts, rules, ... for the trace spec)
+	ID       int           `json:"id"`
+	Family   string        `json:"family"`
+	Universe []string      `json:"universe"`
+	Src      []fstree.Node `json:"src"`
+	Dst      []fstree.Node `json:"dst"`
+	Flags    []string      `json:"flags"` // client options, e.g. ["-rt", "--delete", "--exclude=a"]
+	Arr      string        `json:"arr"`   // pull | push | local | lib | libpush
+	Form     string        `json:"form"`  // slash (contents of the tree) | noslash (the tree itself) | sub (pull of module/sub/)
+	Judge    []string      `json:"judge"`
+	Repeat   bool          `json:"repeat"` // run the same transfer a second time (idempotence)
+	CapUp    int           `json:"capup"`  // lib arrangement: transport capacities (0 = unbounded default)
+	CapDown  int           `json:"capdown"`
+	Chunk    int           `json:"chunk"`  // lib: reads return at most this many bytes (0: unlimited)
+	Jitter   int64         `json:"jitter"` // lib: seed of random yields / micro-sleeps in transport operations (0: none)
+	Flip     int64         `json:"flip"`   // lib: flip one bit of the sender->receiver stream at this offset (0: none)
+	Wire     bool          `json:"wire"`   // lib (pull): record the action-level trace of the session (SessionWire.tla)
+	Full     bool          `json:"full"`   // lib, libpush: record the complete session transcript (RsyncTrace.tla)
+	// NameMap concretises the abstract path components of the universe: component -> the real file name, given as
+	// hex (arbitrary bytes: invalid UTF-8, newlines, 255-byte names ...).  The map must preserve the bytewise order.
+	NameMap map[string]string `json:"namemap,omitempty"`
+	Echo    json.RawMessage   `json:"echo,omitempty"` // passed through (opts, rules, ... for the trace spec)
 }
 
 type syncObs struct {
@@ -70,11 +74,68 @@ type syncObs struct {
 	Log      string          `json:"log,omitempty"`
 	Wire     *wireObs        `json:"wire,omitempty"`
 	Full     *fullObs        `json:"fullwire,omitempty"`
-	Full2    *fullObs        `json:"fullwire2,omitempty"` // repeat: the transcript of the second run
+	Full2    *fullObs        `json:"fullwire2,omitempty"`     // repeat: the transcript of the second run
 	Retire   bool            `json:"retire_worker,omitempty"` // a hung session's goroutines are still parked in this worker
 }
 
 func init() { handlers["sync"] = syncHandler }
+
+// nameCodec translates paths componentwise between the abstract universe and the concrete names on disk / on the wire.
+type nameCodec struct{ fwd, rev map[string]string }
+
+func newNameCodec(m map[string]string) (*nameCodec, error) {
+	c := &nameCodec{fwd: map[string]string{}, rev: map[string]string{}}
+	for k, v := range m {
+		b, err := hex.DecodeString(v)
+		if err != nil {
+			return nil, fmt.Errorf("namemap %q: %v", k, err)
+		}
+		c.fwd[k] = string(b)
+		c.rev[string(b)] = k
+	}
+	return c, nil
+}
+
+func (c *nameCodec) tr(p string, m map[string]string) string {
+	if c == nil || len(m) == 0 || p == "." {
+		return p
+	}
+	parts := strings.Split(p, "/")
+	for i, x := range parts {
+		if y, ok := m[x]; ok {
+			parts[i] = y
+		}
+	}
+	return strings.Join(parts, "/")
+}
+func (c *nameCodec) concrete(ns []fstree.Node) []fstree.Node {
+	if c == nil {
+		return ns
+	}
+	out := append([]fstree.Node(nil), ns...)
+	for i := range out {
+		out[i].P = c.tr(out[i].P, c.fwd)
+	}
+	return out
+}
+func (c *nameCodec) abstract(ns []fstree.Node) []fstree.Node {
+	if c == nil {
+		return ns
+	}
+	for i := range ns {
+		ns[i].P = c.tr(ns[i].P, c.rev)
+	}
+	sort.Slice(ns, func(i, j int) bool { return ns[i].P < ns[j].P })
+	return ns
+}
+func (c *nameCodec) abstractWire(fo *fullObs) *fullObs {
+	if c != nil && fo != nil {
+		for i := range fo.Events {
+			fo.Events[i].Name = c.tr(fo.Events[i].Name, c.rev)
+		}
+	}
+	return fo
+}
 
 // startDaemon starts a real daemon on a loopback port for ONE case: leftover
 // goroutines of an earlier (hung) case can never touch a later case's files.
@@ -122,6 +183,13 @@ func syncHandler(w *workerCtx, line []byte) (any, error) {
 	if err := json.Unmarshal(line, &s); err != nil {
 		return nil, err
 	}
+	var nc *nameCodec
+	if len(s.NameMap) > 0 {
+		var err error
+		if nc, err = newNameCodec(s.NameMap); err != nil {
+			return nil, err
+		}
+	}
 	obs := &syncObs{ID: s.ID, Family: s.Family, Universe: s.Universe, Arr: s.Arr, Form: s.Form, Flags: s.Flags, Judge: s.Judge, Echo: s.Echo,
 		Extra: []string{}, Final: []fstree.Node{}, Final2: []fstree.Node{}}
 	if obs.Judge == nil {
@@ -162,16 +230,16 @@ func syncHandler(w *workerCtx, line []byte) (any, error) {
 			}
 		}
 		os.MkdirAll(tree2, 0o755)
-		if err := fstree.Build(tree, s1); err != nil {
+		if err := fstree.Build(tree, nc.concrete(s1)); err != nil {
 			return nil, fmt.Errorf("building source: %w", err)
 		}
-		if err := fstree.Build(tree2, s2); err != nil {
+		if err := fstree.Build(tree2, nc.concrete(s2)); err != nil {
 			return nil, fmt.Errorf("building source: %w", err)
 		}
-	} else if err := fstree.Build(tree, s.Src); err != nil {
+	} else if err := fstree.Build(tree, nc.concrete(s.Src)); err != nil {
 		return nil, fmt.Errorf("building source: %w", err)
 	}
-	if err := fstree.Build(ddir, s.Dst); err != nil {
+	if err := fstree.Build(ddir, nc.concrete(s.Dst)); err != nil {
 		return nil, fmt.Errorf("building destination: %w", err)
 	}
 	known := fstree.Known{}
@@ -190,11 +258,13 @@ func syncHandler(w *workerCtx, line []byte) (any, error) {
 	if obs.Src, err = fstree.Snapshot(tree, known); err != nil {
 		return nil, err
 	}
+	obs.Src = nc.abstract(obs.Src)
 	if s.Form == "multi" {
 		more, err := fstree.Snapshot(tree2, known)
 		if err != nil {
 			return nil, err
 		}
+		more = nc.abstract(more)
 		for _, n := range more {
 			if n.P != "." {
 				obs.Src = append(obs.Src, n)
@@ -209,6 +279,7 @@ func syncHandler(w *workerCtx, line []byte) (any, error) {
 		if err != nil {
 			return nil, nil, err
 		}
+		all = nc.abstract(all)
 		uni := map[string]bool{}
 		for _, u := range s.Universe {
 			uni[u] = true
@@ -227,7 +298,7 @@ func syncHandler(w *workerCtx, line []byte) (any, error) {
 		// the prior destination state applies to dst/tree
 		fstree.Reset(ddir)
 		os.MkdirAll(root, 0o755)
-		if err := fstree.Build(root, s.Dst); err != nil {
+		if err := fstree.Build(root, nc.concrete(s.Dst)); err != nil {
 			return nil, err
 		}
 	}
@@ -265,9 +336,9 @@ func syncHandler(w *workerCtx, line []byte) (any, error) {
 			if drec != nil && rerr == nil {
 				dwait()
 				if fo := drec.analyseFull(s.Arr == "push", fullOptsOf(true)); runs == 1 {
-					obs.Full = fo
+					obs.Full = nc.abstractWire(fo)
 				} else {
-					obs.Full2 = fo
+					obs.Full2 = nc.abstractWire(fo)
 				}
 			}
 		}
@@ -309,9 +380,9 @@ func syncHandler(w *workerCtx, line []byte) (any, error) {
 			}
 			if rec != nil && rerr == nil && s.Full {
 				if fo := rec.analyseFull(s.Arr == "libpush", fullOptsOf(false)); runs == 1 {
-					obs.Full = fo
+					obs.Full = nc.abstractWire(fo)
 				} else {
-					obs.Full2 = fo
+					obs.Full2 = nc.abstractWire(fo)
 				}
 			}
 		default:
